@@ -106,6 +106,16 @@ func toForm(lines []string) repl.Form {
 	return f
 }
 
+// scribble overwrites the caller's form in place after it was handed over: the line editor goes on using its buffers,
+// what the history and the stash remember must be their own copy.
+func scribble(f repl.Form) {
+	for _, line := range f {
+		for i := range line {
+			line[i] = '#'
+		}
+	}
+}
+
 // listForms reads a stash (or the stash inside a history) oldest first through Size and Nth.
 func listForms(st *repl.Stash) []refhist.Form {
 	n := st.Size()
@@ -155,12 +165,12 @@ func (r *runner) apply(op Op) string {
 	var err string
 	switch op.K {
 	case "add":
-		err = guard("History.Add", func() { r.se.h.Add(toForm(op.F)) })
+		err = guard("History.Add", func() { f := toForm(op.F); r.se.h.Add(f); scribble(f) })
 		before := len(r.m.Hist)
 		r.compacted = r.m.HistAdd(refhist.Form(op.F))
 		r.added = r.compacted || len(r.m.Hist) != before // not ignored as empty or repeated
 	case "sadd":
-		err = guard("Stash.Add", func() { r.se.s.Add(toForm(op.F)) })
+		err = guard("Stash.Add", func() { f := toForm(op.F); r.se.s.Add(f); scribble(f) })
 		r.m.StashAdd(refhist.Form(op.F))
 	case "limit":
 		err = guard("History.SetLimit", func() { r.se.h.SetLimit(op.A) })
